@@ -418,7 +418,7 @@ func RunDriver(o DriverOpts) int {
 			} else {
 				t.Count += v.Count
 				if v.Stage == t.Stage && v.Idx < t.Idx {
-					t.Idx, t.Detail = v.Idx, v.Detail
+					t.Idx, t.Detail, t.Prelude = v.Idx, v.Detail, v.Prelude
 				}
 			}
 		}
@@ -496,7 +496,7 @@ func RunDriver(o DriverOpts) int {
 		rp := filepath.Join(outDir, "replays", fmt.Sprintf("%s-%016x.json", p.ID, HashStr(s)))
 		rb, _ := json.MarshalIndent(map[string]any{
 			"property": p.ID, "signature": s, "stage": v.Stage, "idx": v.Idx, "seed": o.Seed, "tier": o.Tier.String(),
-			"count": v.Count, "detail": v.Detail,
+			"count": v.Count, "detail": v.Detail, "prelude": v.Prelude,
 			"replay_cmd": fmt.Sprintf("./check replay %s", rp),
 		}, "", " ")
 		_ = os.WriteFile(rp, rb, 0o644)
